@@ -583,12 +583,13 @@ static void check_insitu (mpq_QSprob p, const RefLP * L, const char *ctx)
 	mpq_clear (s); mpq_clear (t); mpq_clear (c); mpq_clear (e);
 }
 /* after a successful call: fetch through the public API and through the exported ILLlib functions */
+static int g_api_only;   /* family hist: after QSexact_solver the simplex data of p are not the state a next pivot continues from; only the public API is judged there */
 static void check_basis (mpq_QSprob p, const RefLP * L, const char *ctx)
 {
 	int n = L->n, m = L->m, order[32];
 	mpq_t *brow = mpq_arr_new (m), *trow = mpq_arr_new (n + m);
 	STAT ("basis_states");
-	check_insitu (p, L, ctx);
+	if (!g_api_only) check_insitu (p, L, ctx);
 	/* public API */
 	if (mpq_QSget_basis_order (p, order)) STAT ("api_basis_order_unavailable");
 	else if (!order_ok (L, order)) bviol (L, ctx, "basis-order-invalid", "mpq_QSget_basis_order returned an out-of-range or repeated variable");
@@ -602,7 +603,8 @@ static void check_basis (mpq_QSprob p, const RefLP * L, const char *ctx)
 		}
 	}
 	/* exported lib functions: work on the simplex's current basis, no cached optimum needed */
-	if (lp_usable (p, L)) {
+	if (g_api_only) { }
+	else if (lp_usable (p, L)) {
 		if (mpq_ILLlib_basis_order (p->lp, order)) STAT ("lib_basis_order_failed");
 		else if (!order_ok (L, order)) bviol (L, ctx, "basis-order-invalid", "mpq_ILLlib_basis_order returned an out-of-range or repeated variable");
 		else {
@@ -616,6 +618,8 @@ static void check_basis (mpq_QSprob p, const RefLP * L, const char *ctx)
 	} else STAT ("lib_route_no_basis");
 	mpq_arr_free (brow, m); mpq_arr_free (trow, n + m);
 }
+/* used by family hist (opt binv=1): the same multiplication-back after a solve inside an edit/solve history */
+void c13_check_basis (mpq_QSprob p, const RefLP * L, const char *ctx) { b_nviol = 0; g_api_only = 1; check_basis (p, L, ctx); g_api_only = 0; }
 static long iters_of (mpq_QSprob p)
 {
 	int a = 0, b = 0, c = 0, d = 0, t = 0;
